@@ -295,6 +295,7 @@ type c16Env struct {
 	// the server of the history ops: started with hist[0], reloaded with hist[1:]
 	hist        *c16Server
 	histApplied []c16Conf
+	histRpc     *GrpcClients // one (empty) set of RPC clients for all history servers
 	histStarts  int
 	histReloads int
 }
@@ -335,7 +336,10 @@ func (e *c16Env) histServer(hist []c16Conf) *c16Server {
 		c16SetOption(config, "stats", "allowed_ips", hist[0].Allow, hist[0].NoSec)
 		cfg, b, _, hub, r, _ := CreateBackendServerForTestFromConfig(e.t, config)
 		// Hub.Reload also reloads the RPC clients; the test helper creates hubs without (the server never does)
-		hub.rpcClients, _ = NewGrpcClientsForTestWithConfig(e.t, goconf.NewConfigFile(), nil)
+		if e.histRpc == nil {
+			e.histRpc, _ = NewGrpcClientsForTestWithConfig(e.t, goconf.NewConfigFile(), nil)
+		}
+		hub.rpcClients = e.histRpc
 		e.hist = &c16Server{hub: hub, backend: b, router: r, config: cfg}
 		e.histApplied = []c16Conf{hist[0]}
 		e.histStarts++
@@ -1179,7 +1183,7 @@ func (w *c16World) peer() c16Str {
 }
 
 // share of the requests with a long X-Forwarded-For list
-const c16LongPercent = 7
+const c16LongPercent = 6
 
 // ---- configuration histories ---------------------------------------------------------
 //
@@ -1515,7 +1519,7 @@ func c16Directed() []*c16Case {
 	// trusted proxy appends the real one (to the line, or as a line of its own)
 	{
 		var rops, hops, sops []c16Op
-		for _, count := range []int{7, 8, 14, 15, 16, 17, 31, 32, 33, 40} {
+		for _, count := range []int{40, 33, 17, 8, 15, 16} {
 			entries := make([]string, count)
 			for i := range entries {
 				entries[i] = "10.1.2.3"
@@ -1543,6 +1547,15 @@ func c16Directed() []*c16Case {
 				h = append(h, c16Conf{Trusted: st.t, Allow: st.a, NoSec: nosec})
 			}
 			return h
+		}
+		// one change of the allow-list after start: removed, emptied, changed, refused, added
+		for _, nosec := range []bool{false, true} {
+			for _, tr := range [][2]*string{{o("127.0.0.1, 10.9.9.9"), none}, {o("10.9.9.9"), none}, {o("10.9.9.9"), o("")}, {o("10.9.9.9"), o("10.1.2.3")},
+				{o("10.9.9.9"), o("10.1.2.3/33")}, {none, o("10.9.9.9")}, {o(""), o("10.9.9.9")}, {none, none}} {
+				h := hist(nosec, step{none, tr[0]}, step{none, tr[1]})
+				add(c16Op{K: "histstats", Hist: h, Peer: "10.9.9.9:12345"}, c16Op{K: "histstats", Hist: h, Endpoint: 1, Peer: "127.0.0.1:12345"},
+					c16Op{K: "histstats", Hist: h, Endpoint: 2, Peer: "10.1.2.3:12345"}, c16Op{K: "histstats", Hist: h[:1], Peer: "10.9.9.9:12345"})
+			}
 		}
 		for _, nosec := range []bool{false, true} {
 			full := hist(nosec, step{o("127.0.0.1"), o("127.0.0.1, 10.1.2.3")}, step{o("127.0.0.1"), o("127.0.0.1, 10.9.9.9")},
@@ -1599,7 +1612,7 @@ func TestVerifC16(t *testing.T) {
 		t.Fatal("net.SplitHostPort(\"\") succeeds")
 	}
 
-	n, nhist := 1500, 110
+	n, nhist := 1500, 100
 	hubConfigs := c16HubConfigs
 	if env.thorough() {
 		n, nhist = 24000, 1800
